@@ -124,6 +124,9 @@ fn check_search(ctx: &mut Ctx, s: &[u8], class: &'static str) {
 impl Monitor for M {
     fn case(&mut self, ctx: &mut Ctx) {
         let light = ctx.light();
+        if super::huge::wanted(ctx) {
+            super::huge::stored_message_behind_4gib(ctx, false);
+        }
         let ec = exh_chunks(ctx.tier, light);
         let i = ctx.index;
         if i < ec {
@@ -235,6 +238,17 @@ impl Monitor for M {
                     if ctx.rng.chance(1, 40) {
                         lens.push(ctx.rng.range(1 << 20, 3 << 20) as usize);
                         ctx.obs("parse.megabytes_of_regular_junk");
+                    }
+                    // the pattern 10-18 MiB into the buffer, and right at the 10 MiB mark (the size of the readers'
+                    // default buffer): a search that gives up after some distance shows here
+                    if ctx.rng.chance(1, 160) {
+                        let ten = 10usize << 20;
+                        lens.push(match ctx.rng.below(4) {
+                            0 => ten - ctx.rng.range(0, 4) as usize,
+                            1 => ten + ctx.rng.range(0, 40) as usize,
+                            _ => ctx.rng.range(ten as u64, 18 << 20) as usize,
+                        });
+                        ctx.obs("parse.pattern_beyond_10MiB");
                     }
                 }
                 for jl in lens {
